@@ -713,3 +713,146 @@ def growers(rng):
         a.emit(rng.choice([["DUP1", 1, "SSTORE"], [0, "MSTORE"], [0, "SLOAD", "ADD", 2, "SSTORE"]]))
         a.emit("STOP")
     return a.assemble(), feats
+
+
+def sinks(rng, B):
+    """Stack-aware programs that put boundary constants into *sink positions*: shift amounts, exponents, memory
+    offsets and sizes of SHA3/RETURN/REVERT/LOG/CALL*/CREATE*/xCOPY/MLOAD/MSTORE, jump targets, storage keys and slot
+    arithmetic, masks and mask positions. Every statement lives in its own dispatch branch."""
+    a = evm.Asm()
+    feats = set()
+    nb = rng.randint(1, 7)
+    b = lambda: rng.choice(B) if rng.random() < 0.8 else rng.getrandbits(rng.choice([8, 32, 64, 65, 128, 256]))
+    sym = lambda: a.emit(rng.choice(["CALLVALUE", "CALLER", [4, "CALLDATALOAD"], [rng.randrange(4), "SLOAD"]]))
+    a.emit(0, "CALLDATALOAD", 0xe0, "SHR")
+    for i in range(nb):
+        a.emit("DUP1", ("push", 0xd0000000 + i, 4), "EQ")
+        a.jumpi("B%d" % i)
+    a.emit("STOP")
+    for i in range(nb):
+        a.label("B%d" % i)
+        for _ in range(rng.randint(1, 3)):
+            k = rng.choice(["shift", "shift-mask", "exp", "sha3", "ret", "log", "call", "create", "copy", "mem", "jump",
+                            "slot-arith", "mask", "mulshift", "signext-byte", "divmod", "nested-hash", "sstore-const",
+                            "mstore8", "balance"])
+            feats.add(k)
+            if k == "shift":
+                sym()
+                a.emit(b(), rng.choice(["SHL", "SHR", "SAR"]), rng.choice([[0, "MSTORE"], [rng.randrange(4), "SSTORE"], ["POP"]]))
+            elif k == "shift-mask":
+                a.emit(rng.randrange(4), "SLOAD", b(), rng.choice(["SHR", "SHL", "SAR"]), b(), "AND", rng.randrange(4), "SSTORE")
+            elif k == "exp":
+                a.emit(b(), rng.choice([2, 10, 256, b()]), "EXP")
+                if rng.random() < 0.5:
+                    sym()
+                    a.emit("MUL")
+                a.emit(rng.choice([[0, "MSTORE"], [rng.randrange(4), "SSTORE"], ["JUMP"]]))
+            elif k == "sha3":
+                sym()
+                a.emit(0, "MSTORE", b(), b(), "SHA3", rng.choice(["POP", "SLOAD", [1, "SSTORE"]]))
+                if a.items and rng.random() < 0.3:
+                    a.emit("POP") if False else None
+            elif k == "ret":
+                sym()
+                a.emit(rng.choice([0, 32, b()]), "MSTORE", b(), b(), rng.choice(["RETURN", "REVERT"]))
+            elif k == "log":
+                n = rng.randrange(5)
+                for _ in range(n):
+                    a.emit(b())
+                a.emit(b(), b(), "LOG%d" % n)
+            elif k == "call":
+                op = rng.choice(["CALL", "CALLCODE", "DELEGATECALL", "STATICCALL"])
+                for _ in range(7 if op in ("CALL", "CALLCODE") else 6):
+                    a.emit(b() if rng.random() < 0.7 else rng.choice([0, 32, 64]))
+                a.emit(op, "POP")
+                if rng.random() < 0.5:
+                    a.emit(rng.choice([0, 32, b()]), "MLOAD", rng.randrange(4), "SSTORE")
+            elif k == "create":
+                if rng.random() < 0.5:
+                    a.emit(b(), b(), b(), "CREATE", "POP")
+                else:
+                    a.emit(b(), b(), b(), b(), "CREATE2", "POP")
+            elif k == "copy":
+                op = rng.choice(["CALLDATACOPY", "CODECOPY", "RETURNDATACOPY", "EXTCODECOPY"])
+                a.emit(b(), b(), b())
+                if op == "EXTCODECOPY":
+                    a.emit("CALLER")
+                a.emit(op)
+                if rng.random() < 0.6:
+                    a.emit(rng.choice([0, 32, b()]), "MLOAD", rng.choice([[1, "SSTORE"], ["POP"], ["JUMP"]]))
+            elif k == "mem":
+                if rng.random() < 0.5:
+                    sym()
+                    a.emit(b(), "MSTORE", b(), "MLOAD", "POP")
+                else:
+                    a.emit(b(), "MLOAD", b(), "MSTORE")
+            elif k == "mstore8":
+                sym()
+                a.emit(b(), "MSTORE8", b(), b(), "SHA3", "POP")
+            elif k == "jump":
+                if rng.random() < 0.5:
+                    a.emit(b(), "JUMP")
+                else:
+                    sym()
+                    a.emit(b(), "JUMPI")
+            elif k == "slot-arith":
+                if rng.random() < 0.5:
+                    sym()
+                    a.emit(0, "MSTORE", rng.choice([0, 1, 5, b()]), 0x20, "MSTORE", 0x40, 0, "SHA3")
+                else:
+                    a.emit(rng.choice([0, 1, 5, b()]), 0, "MSTORE", 0x20, 0, "SHA3")
+                a.emit(rng.choice([b(), (1 << 56) - 1, 1 << 56, (1 << 64) - 1, 1 << 64, (1 << 56) + 3, 1, 2]), "ADD")
+                if rng.random() < 0.5:
+                    a.emit("SLOAD", rng.choice(["POP", [b(), "AND", 0, "MSTORE"]]))
+                else:
+                    sym()
+                    a.emit("SWAP1", "SSTORE")
+            elif k == "mask":
+                a.emit(rng.randrange(4), "SLOAD", b(), "AND")
+                if rng.random() < 0.6:
+                    a.emit(b(), rng.choice(["SHR", "SWAP1", "DIV"]) if rng.random() < 0.7 else "MUL")
+                a.emit(rng.randrange(4), "SSTORE")
+            elif k == "mulshift":
+                s = rng.randrange(4)
+                a.emit(s, "SLOAD", b(), "AND")
+                sym()
+                a.emit(b(), "AND", b() if rng.random() < 0.5 else (1 << rng.randrange(256)), "MUL", "OR", s, "SSTORE")
+            elif k == "signext-byte":
+                sym()
+                a.emit(b(), rng.choice(["SIGNEXTEND", "BYTE"]), rng.randrange(4), "SSTORE")
+            elif k == "divmod":
+                sym()
+                a.emit(b(), rng.choice(["DIV", "SDIV", "MOD", "SMOD", "SWAP1"]), b(),
+                       rng.choice(["DIV", "MOD", "ADDMOD" if False else "MUL"]), rng.randrange(4), "SSTORE")
+            elif k == "nested-hash":
+                sym()
+                a.emit(0, "MSTORE", b(), 0x20, "MSTORE", 0x40, 0, "SHA3", 0x20, "MSTORE", "CALLER", 0, "MSTORE", 0x40, 0,
+                       "SHA3", b(), "ADD", "SLOAD", b(), "AND", 0, "MSTORE")
+            elif k == "sstore-const":
+                a.emit(b(), b(), "SSTORE", b(), "SLOAD", b(), "SSTORE")
+            elif k == "balance":
+                a.emit(b(), rng.choice(["BALANCE", "EXTCODESIZE", "EXTCODEHASH", "BLOCKHASH"]), b(), "ADD", rng.randrange(4), "SSTORE")
+        if rng.random() < 0.8:
+            a.emit("STOP")
+    return a.assemble(), feats
+
+
+def mutate_contract(rng, code, B):
+    """Byte flips, truncation near a PUSH, or substitution of a PUSH immediate by a boundary constant."""
+    b = bytearray(code)
+    kinds = evm.disasm_ref(code)
+    pushes = [i for i, k in enumerate(kinds) if k == "P"]
+    how = rng.choice(["flip", "flip", "truncate", "imm", "imm", "imm"])
+    if how == "flip" or not pushes:
+        for _ in range(rng.randint(1, 5)):
+            b[rng.randrange(len(b))] = rng.getrandbits(8)
+    elif how == "truncate":
+        p = rng.choice(pushes)
+        b = b[:max(1, p + rng.randint(0, 33))]
+    else:
+        for _ in range(rng.randint(1, 4)):
+            p = rng.choice(pushes)
+            w = b[p] - 0x5f
+            v = rng.choice(B) & ((1 << (8 * w)) - 1)
+            b[p + 1:p + 1 + w] = v.to_bytes(w, "big")
+    return bytes(b), how
